@@ -1,6 +1,6 @@
 (* C15: the statements of Properties/C15.v, proved here (Properties only restates them) *)
 From V Require Import Base.Bits Model.SimKernel Model.Waveform Spec.C15.
-From V Require Import Proofs.C15.Digits Proofs.C15.Row Proofs.C15.Watch Proofs.C15.Kernel Proofs.C15.Wavedrom.
+From V Require Import Proofs.C15.Digits Proofs.C15.Row Proofs.C15.Watch Proofs.C15.Kernel Proofs.C15.Wavedrom Proofs.C15.History.
 
 Lemma thm_C15_watchlist : forall ws entries,
   let r := wf_init ws entries in
@@ -134,4 +134,38 @@ Proof.
     destruct w as [|[|[|w]]]; cbn [dict_get Nat.eqb] in H; try discriminate; injection H as <-; cbn [nth];
       repeat constructor; unfold fits; lia.
   - repeat split; vm_compute; reflexivity.
+Qed.
+
+Lemma thm_C15_kernel_nonvacuous :
+  let d0 : design Z := {| widths := [8; 8; 1]; combs := [];
+                          seqs := [{| s_in := [0%nat]; s_out := [1%nat]; s_f := fun (st : Z) ins => (st, [Some (nth 0 ins 0)]) |}];
+                          drivers := [{| d_enable := None; d_leaves := [0%nat] |}] |} in
+  let entries := [EWire 1; EPort 0; EWire 1] in
+  let r0 := wf_init (widths d0) entries in
+  let d := with_recorder d0 (wf_uniq r0) 0 None in                  (* recorder in the ungated domain *)
+  let dg := with_recorder d0 (wf_uniq r0) 1 (Some 2%nat) in          (* recorder in a domain gated by wire 2 *)
+  let st0 : list (Z + dict) := [inl 0; inr (wf_getDict r0)] in
+  (forall (st : Z + dict) dd, getR_sum (setR_sum st dd) = dd) /\
+  nth_error (seqs d) 1 = Some (recorder_leaf getR_sum setR_sum (wf_uniq r0)) /\
+  listed_once d 1 /\ ungated d 1 /\
+  recS getR_sum 1 (init d st0) = Some (wf_getDict r0) /\
+  recS getR_sum 1 (clk d 3 (poke d (init d st0) 0 77)) = Some [(1%nat, [0; 77; 77]); (0%nat, [77; 77; 77])] /\
+  (* gated off: three cycles are simulated (the register follows its input) and nothing is recorded *)
+  total (clk dg 3 (poke dg (init dg st0) 0 77)) = 3%nat /\
+  rd (vals (clk dg 3 (poke dg (init dg st0) 0 77))) 1 = 77 /\
+  recS getR_sum 1 (clk dg 3 (poke dg (init dg st0) 0 77)) = Some [(1%nat, []); (0%nat, [])] /\
+  (* gate open on the second call only *)
+  recS getR_sum 1 (clk dg 2 (poke dg (clk dg 3 (poke dg (init dg st0) 0 77)) 2 1)) = Some [(1%nat, [77; 77]); (0%nat, [77; 77])].
+Proof.
+  intros d0 entries r0 d dg st0.
+  split; [reflexivity|]. split; [reflexivity|]. split; [vm_compute; reflexivity|]. split.
+  - intros drv Hin _. vm_compute in Hin. destruct Hin as [<-|[]]. reflexivity.
+  - repeat split; vm_compute; reflexivity.
+Qed.
+
+Lemma thm_C15_rendering_injective : forall ww s1 s2, Forall (fits ww) s1 -> Forall (fits ww) s2 ->
+  row ww (if ww =? 1 then FmtEmpty else FmtHEX) s1 = row ww (if ww =? 1 then FmtEmpty else FmtHEX) s2 -> s1 = s2.
+Proof.
+  intros ww s1 s2 H1 H2 E. pose proof (roundtrip ww s1 H1) as R1. pose proof (roundtrip ww s2 H2) as R2.
+  rewrite E in R1. rewrite R1 in R2. now injection R2.
 Qed.
